@@ -20,7 +20,10 @@ const (
 )
 
 // Parser extracts wire patterns from Go source files.
-type Parser struct{}
+type Parser struct {
+	// fileStart is where the file being parsed starts in the loader's file set.
+	fileStart token.Pos
+}
 
 // NewParser creates a new Parser instance.
 func NewParser() *Parser {
@@ -66,6 +69,7 @@ func (p *Parser) ExtractImports(file *ast.File) map[string]string {
 func (p *Parser) ExtractPatterns(file *ast.File, info *types.Info, wireAlias string, filePath string) ([]WirePattern, []Warning) {
 	var patterns []WirePattern
 	var warnings []Warning
+	p.fileStart = file.FileStart
 
 	// Visit all declarations
 	for _, decl := range file.Decls {
@@ -343,13 +347,20 @@ func (p *Parser) parseInterfaceValue(call *ast.CallExpr, info *types.Info, fileP
 		return nil
 	}
 
+	expr := call.Args[1]
+	if ident, ok := expr.(*ast.Ident); ok {
+		// The writer leaves a bare identifier in its place. That place must be the one inside its own
+		// file: where the loader put the file in its file set differs from run to run.
+		expr = &ast.Ident{NamePos: ident.NamePos - p.fileStart + 1, Name: ident.Name}
+	}
+
 	return &WireInterfaceValue{
 		baseWirePattern: baseWirePattern{
 			Pos:  call.Pos(),
 			File: filePath,
 		},
 		Interface: ifaceType,
-		Expr:      call.Args[1],
+		Expr:      expr,
 	}
 }
 
